@@ -196,6 +196,38 @@ def main():
             for e in sv:
                 k = "%s:%s" % (e["file"], e["new"])
                 out.append("| `%s:%d` `%s` → `%s` | %s | %s |\n" % (e["file"], e["line"], e["op"].replace("|", "\\|"), e["new"][:90].replace("|", "\\|"), e["status"].lower(), tri.get(k, tri.get(e["file"], "")).replace("|", "\\|")))
+    # false-alarm probe (behaviour-preserving refactorings)
+    sil = []
+    for d in sorted(glob.glob(os.path.join(VERIF, "seeded_silent", "*"))):
+        mf = os.path.join(d, "meta.json")
+        if os.path.exists(mf):
+            m = json.load(open(mf))
+            m["dir"] = os.path.basename(d)
+            sil.append(m)
+    if sil:
+        tri = {}
+        tf = os.path.join(P, "silent_triage.json")
+        if os.path.exists(tf):
+            tri = json.load(open(tf))
+        val = [m for m in sil if m.get("valid")]
+        out.append("\n### 7.4 False-alarm probe: behaviour-preserving refactorings (`tools/silentprobe.py`)\n\n")
+        out.append(part("sec7_4.md") if os.path.exists(os.path.join(P, "sec7_4.md")) else "")
+        out.append("\n| refactoring | what (sub-agent's words, abridged) | all 23 checks | triage |\n|---|---|---|---|\n")
+        quiet = 0
+        for m in val:
+            al = m.get("alarms")
+            if al is None:
+                res = "not run"
+            elif not al:
+                res = "silent"
+                quiet += 1
+            else:
+                res = "**alarm**: " + "<br>".join("`%s`" % k.split(" :: ")[0].replace("|", "\\|") for p_, ks in sorted(al.items()) for k in ks[:2])
+            out.append("| `%s` | %s | %s | %s |\n" % (m["dir"], first_line(m.get("what", ""))[:170].replace("|", "\\|"), res, tri.get(m["dir"], "").replace("|", "\\|")))
+        out.append("\n%d confirmed behaviour-preserving refactorings; %d left every check silent on the rule set of the commit recorded in their `meta.json`.\n" % (len(val), quiet))
+        inv = [m["dir"] for m in sil if not m.get("valid")]
+        if inv:
+            out.append("\nDelivered but not confirmed as behaviour-preserving here (not counted): %s.\n" % ", ".join("`%s`" % x for x in inv))
     out.append("\n---------------------------------------------------------------------------\n\n")
     out.append(part("sec8.md"))
     out.append(part("sec9.md"))
